@@ -455,6 +455,71 @@ theorem untouched_if_not_stale (P : Params) (n : Nat) (as : List Act) (t : Nat)
   rw [reach_snoc]
   exact sweep_touches_only_pending P _ w ord t x hx (np k)
 
+/-! ## failed by AT LEAST one — under the hypotheses that make it true
+
+`failed_by_exactly_one` above starts from a logged win: without one it only says "at most one winner" (alias
+`failed_by_at_most_one_winner`).  Nothing forces a stale trial to be failed at all: every sweeper may die first, or another
+actor may finish the trial first (then the sweepers lose their compare-and-set, which is correct).  What makes "at least one"
+true is stated here exactly, on the reachable configurations (`reach`, `reach_inv`):
+a LIVE sweeper `w` stands at the trial (`failing (t :: todo) won`: it read `t` as stale and its next storage call is the
+compare-and-set for `t`), the trial is still unfinished in that configuration (nobody finished it first — for a trial read as
+stale this means it is still RUNNING), and `w` takes that step. -/
+
+/-- the ghost log only grows -/
+theorem events_step (P : Params) (c : Cfg) (a : Act) (e : Event) (h : e ∈ c.events) : e ∈ (step P c a).events := by
+  cases a with
+  | die w => exact h
+  | env op => exact h
+  | sweep w ord =>
+    simp only [step, sweepStep]
+    repeat' split
+    all_goals simp [Cfg.setPhase, h]
+
+theorem events_run (P : Params) (c : Cfg) (as : List Act) (e : Event) (h : e ∈ c.events) : e ∈ (run P c as).events := by
+  induction as generalizing c with
+  | nil => exact h
+  | cons a rest ih => exact ih _ (events_step P c a e h)
+
+theorem reach_append (P : Params) (n : Nat) (as bs : List Act) : reach P n (as ++ bs) = run P (reach P n as) bs := by
+  simp [reach, run, List.foldl_append]
+
+/-- **failed_by_at_least_one**: if in a reachable configuration the live sweeper `w` stands at trial `t`, `t` is still
+unfinished there, and the next action is `w`'s sweep step, then that step moves `t` to FAIL and logs the win — and the win
+stays logged whatever happens afterwards (`more`: any further actions of anybody, deaths included). -/
+theorem failed_by_at_least_one (P : Params) (n : Nat) (as : List Act) (w t : Nat) (todo won ord : List Nat) (x : HTrial)
+    (more : List Act)
+    (hw : (reach P n as).workers[w]? = some (.failing (t :: todo) won))
+    (hx : (reach P n as).trials[t]? = some x) (hnf : x.core.state.isFinished = false) :
+    Event.won w t ∈ (reach P n (as ++ .sweep w ord :: more)).events ∧
+    (reach P n (as ++ [.sweep w ord])).trials[t]? = some (setState .fail x) := by
+  have hcas := (cas_decides P (reach P n as) w t ord todo won x hw hx).1 hnf
+  have hstep : reach P n (as ++ [.sweep w ord]) = sweepStep P (reach P n as) w ord := reach_snoc P n as _
+  refine ⟨?_, by rw [hstep]; exact hcas.2.1⟩
+  have : reach P n (as ++ .sweep w ord :: more) = run P (sweepStep P (reach P n as) w ord) more := by
+    rw [reach_append]; rfl
+  rw [this]
+  apply events_run
+  rw [hcas.1]; simp
+
+/-- **failed_by_exactly_one_of_swept**: under the same hypotheses exactly one worker — `w` — fails the trial: in every later
+configuration the compare-and-set to FAIL has succeeded exactly once for `t`, `t` is FAIL, every logged winner and every
+logged callback invocation for `t` is `w`'s. -/
+theorem failed_by_exactly_one_of_swept (P : Params) (n : Nat) (as : List Act) (w t : Nat) (todo won ord : List Nat)
+    (x : HTrial) (more : List Act)
+    (hw : (reach P n as).workers[w]? = some (.failing (t :: todo) won))
+    (hx : (reach P n as).trials[t]? = some x) (hnf : x.core.state.isFinished = false) :
+    cnt (Event.isWon t) (reach P n (as ++ .sweep w ord :: more)).events = 1 ∧
+    (∃ y, (reach P n (as ++ .sweep w ord :: more)).trials[t]? = some y ∧ y.core.state = .fail) ∧
+    (∀ w', Event.won w' t ∈ (reach P n (as ++ .sweep w ord :: more)).events → w' = w) ∧
+    (∀ w' b, Event.callback w' t b ∈ (reach P n (as ++ .sweep w ord :: more)).events → w' = w) :=
+  failed_by_exactly_one P n _ t w (failed_by_at_least_one P n as w t todo won ord x more hw hx hnf).1
+
+/-- what `failed_by_exactly_one` says when no win is assumed: at most one winner (the name `failed_by_at_most_one` is the
+counting form above) -/
+theorem failed_by_at_most_one_winner (P : Params) (n : Nat) (as : List Act) (t w w' : Nat)
+    (h : Event.won w t ∈ (reach P n as).events) (h' : Event.won w' t ∈ (reach P n as).events) : w = w' :=
+  winner_unique P n as t w w' h h'
+
 /-! ## non-vacuity: a two-worker race, a death inside the callback, a chain cut by `max_retry` -/
 
 def demoP : Params := { grace := 100, hasCb := true, maxRetry := some 1 }
@@ -483,5 +548,14 @@ example : (reach demoP 2 (demo.take 10 ++ [.die 1, .sweep 1 [], .sweep 0 [], .sw
 /-- a trial without a heartbeat row, one with a fresh heartbeat and a finished one are not noticed -/
 example : (reach demoP 1 [.env .create, .env .create, .env .create, .env (.beat 1), .env (.beat 2),
     .env (.tick 500), .env (.beat 1), .env (.finish 2 .complete), .sweep 0 []]).events = [.read 0 []] := by decide
+
+/-- and when the hypotheses fail nobody wins: all sweepers dead before the compare-and-set ⇒ the stale trial stays RUNNING -/
+example : (reach demoP 2 (demo.take 7 ++ [.die 0, .die 1, .sweep 0 [], .sweep 1 []])).trials.map (fun x => x.core.state) =
+    [.running] := by decide
+
+
+/-- `failed_by_at_least_one` on the demo: after the two reads (7 actions) worker 1 stands at trial 0, still RUNNING -/
+example : (reach demoP 2 (demo.take 7)).workers[1]? = some (.failing [0] []) ∧
+    ((reach demoP 2 (demo.take 7)).trials[0]?).map (fun x => x.core.state.isFinished) = some false := by decide
 
 end OptunaVerif.C19
